@@ -7,7 +7,7 @@
    reparse = Element.from_tag(table.serialize()) / Document.save + reload: maps recomputed, caches empty. *)
 From Coq Require Import List ZArith Lia Bool Arith.
 Import ListNotations.
-Require Import Vault Row Table Grid Tableabs Transform TableB TableBabs TableBproof TableBproof2 TableBproof3 TableBproof4 TableBproof5 TableBproof6 TableBx.
+Require Import Vault Row Table Grid Tableabs Transform TableB TableBabs TableBproof TableBproof2 TableBproof3 TableBproof4 TableBproof5 TableBproof6 TableBspan TableBx.
 Open Scope Z_scope.
 
 (* ---- the full statement: along EVERY history of mutators, cache-filling reads and `repeated` setters on live handles,
@@ -87,6 +87,16 @@ Theorem C02_span_operations_keep_coh : forall (a : calg) (b : bstate) (o : xop) 
   x_step a true (ax b) o = Some (t', r) -> WF t' -> exists b', b_xstep a b o = Some (b', r) /\ ax b' = t' /\ Coh b'.
 Proof. exact xstep_coh. Qed.
 Print Assumptions C02_span_operations_keep_coh.
+(* the span steps of the statement above are the steps the correspondence checker evaluates on every set_span / del_span of a
+   history (TableBspan: for a given written content), at the content C17's model writes *)
+Theorem C02_set_span_is_the_checked_step : forall (a : calg) (b : bstate) (x y z t : Z) (m : bool) (mid : Z) (b' : bstate) (r : bool),
+  b_xstep a b (XSetSpan x y z t m mid) = Some (b', r) -> exists cells, b_set_span_given x y z t r cells b = Some b'.
+Proof. exact xstep_set_span_given. Qed.
+Print Assumptions C02_set_span_is_the_checked_step.
+Theorem C02_del_span_is_the_checked_step : forall (a : calg) (b : bstate) (x y : Z) (b' : bstate) (r : bool),
+  b_xstep a b (XDelSpan x y) = Some (b', r) -> exists cells, b_del_span_given x y r cells b = Some b'.
+Proof. exact xstep_del_span_given. Qed.
+Print Assumptions C02_del_span_is_the_checked_step.
 (* any call made of cache-filling reads followed by one write of the C01 alphabet *)
 Theorem C02_reads_then_write : forall (b : bstate) (rs : list bop) (o : top) (t' : tstate), Coh b -> Forall is_read rs -> op_ok o ->
   t_step (ax b) o = Some t' -> exists b', b_mut true (tB_run b rs) o = Some b' /\ ax b' = t' /\ Coh b'.
